@@ -1855,7 +1855,16 @@ impl<'a, E: quiver_core::effects::Effect> Compiler<'a, E> {
         // Apply narrowing to the matched value's provenance if the pattern narrows the type.
         // This is done here on the success path - the type has been narrowed by the pattern.
         // Note: result_type is the narrowed type from analyze_pattern.
-        if !self.is_never(result_type) && !self.is_nil(result_type) {
+        // If the pattern rebinds the very variable the value came from (`x =*`, `x =[x]`), the
+        // name now refers to the new binding, which this narrowing says nothing about.
+        let rebinds_source = {
+            let mut root = &value_provenance;
+            while let Provenance::Field(parent, _) = root {
+                root = parent;
+            }
+            matches!(root, Provenance::Variable(name) if bindings.iter().any(|(n, _)| n == name))
+        };
+        if !self.is_never(result_type) && !self.is_nil(result_type) && !rebinds_source {
             apply_narrowing(
                 &mut self.scopes,
                 &value_provenance,
